@@ -73,6 +73,8 @@ props!(
     ("C20", c20),
 );
 
+pub mod longev;
+
 /// The simple-mdns properties: that crate logs through the `log` facade, whose process-wide
 /// level is part of the environment.
 fn uses_logging(prop: &str) -> bool {
